@@ -38,7 +38,7 @@ func TestMain(m *testing.M) {
 		os.Exit(worker(p))
 	}
 	vk.Main(m, "C08", "exploration",
-		"packages = (a) gosub programs split over 1–4 .xgo and 0–2 .go files (types, their methods and their users in different files, an init function per file, overload declarations `func f = (…)` whose candidates live in other files, types and functions that only a .go file declares), (b) xsugar class programs (1–2 normal .gox classes + .xgo users) and overload/collection programs with a .go helper file, (c) error mutants of (a)/(b): dropped declarations and injected ill-typed declarations in several files, so that several errors are reported, (d) project packages: project class files and work class files of 1-3 of the class frameworks of the repository's test packages (spx .tgmx/.tspx, spx2 .t2gmx/.t2spx, spx4 .t4gmx/.t4spx, mcp _mcp.gox/_tool.gox) with 0-2 project files per framework, fields, methods and main bodies, optionally a plain .xgo and .go file and ill-typed methods in several files. Oracle (metamorphic): the same sources are compiled K=12 times in one process (fresh parse; directory listing permuted; the ast.Package Files/GoFiles maps rebuilt in a permuted insertion order) and once in each of 3 fresh worker processes (per case for a drawn sample and for replays; for every case of the run in 3 batch workers): the bytes written by WriteTo and the error list (order included) must be identical. A package the parser rejects is outside the statement (parse errors are reported in listing order by design). Non-trivial = at least 2 files and a cross-file reference (two class files of a framework count as one), or at least 2 reported errors; distinct = hash of the sources")
+		"packages = (a) gosub programs split over 1–4 .xgo and 0–2 .go files (types, their methods and their users in different files, an init function per file, overload declarations `func f = (…)` whose candidates live in other files, types and functions that only a .go file declares), (b) xsugar class programs (1–2 normal .gox classes + .xgo users) and overload/collection programs with a .go helper file, (c) error mutants of (a)/(b): dropped declarations and injected ill-typed declarations in several files, so that several errors are reported, (d) project packages: project class files and work class files of 1-4 of the class frameworks of the repository's test packages (spx .tgmx/.tspx, spx2 .t2gmx/.t2spx, spx4 .t4gmx/.t4spx, mcp _mcp.gox/_tool.gox) with 0-2 project files per framework, fields, methods and main bodies, optionally a plain .xgo and .go file and ill-typed methods in several files. Oracle (metamorphic): the same sources are compiled K=12 times in one process (fresh parse; directory listing permuted; the ast.Package Files/GoFiles maps rebuilt in a permuted insertion order) and once in each of 3 fresh worker processes (per case for a drawn sample and for replays; for every case of the run in 3 batch workers): the bytes written by WriteTo and the error list (order included) must be identical. A package the parser rejects is outside the statement (parse errors are reported in listing order by design). Non-trivial = at least 2 files and a cross-file reference (two class files of a framework count as one), or at least 2 reported errors; distinct = hash of the sources")
 }
 
 type SrcFile struct {
@@ -694,14 +694,14 @@ func classProgram(t *rapid.T, mutate bool) Case {
 	return c
 }
 
-// projectProgram is a package of project class files and work class files of 1-3 class frameworks
+// projectProgram is a package of project class files and work class files of 1-4 class frameworks
 // (the repository's test frameworks spx, spx2, spx4 and mcp), optionally with a plain .xgo and .go
 // file. Packages with several frameworks, several project files or no project file are legal inputs
 // too: whatever the compiler answers has to be the same answer every time.
 func projectProgram(t *rapid.T, mutate bool) Case {
 	type fw struct{ proj, work string }
 	fws := []fw{{".tgmx", ".tspx"}, {".t2gmx", ".t2spx"}, {".t4gmx", ".t4spx"}, {"_mcp.gox", "_tool.gox"}}
-	nfw := rapid.SampledFrom([]int{1, 1, 2, 2, 2, 3}).Draw(t, "frameworks")
+	nfw := rapid.SampledFrom([]int{1, 2, 2, 3, 3, 3, 4}).Draw(t, "frameworks")
 	picked := rapid.Permutation(fws).Draw(t, "fw")[:nfw]
 	projNames := []string{"Alpha", "Beta", "Gamma", "main", "Zeta", "index"}
 	workNames := []string{"Kai", "Lee", "Mo", "Nu", "bar", "Abe"}
@@ -729,6 +729,28 @@ func projectProgram(t *rapid.T, mutate bool) Case {
 		}
 		fn++
 		return fmt.Sprintf("var (\n\tcnt%d int\n\ttag%d string\n)\n\n", fn, fn)
+	}
+	if !mutate && nfw >= 2 && rapid.IntRange(0, 1).Draw(t, "one-entry") == 0 {
+		// one project file per framework, exactly one of them with top-level statements (the
+		// package's entry point), the others with declarations only
+		entry := rapid.IntRange(0, nfw-1).Draw(t, "entry")
+		for i, f := range picked {
+			base := projNames[i]
+			src := fields() + funcs(rapid.IntRange(0, 2).Draw(t, "nfuncs"))
+			if i == entry {
+				src += "println \"entry " + base + "\"\n"
+			}
+			c.Files = append(c.Files, SrcFile{base + f.proj, src})
+			if rapid.Bool().Draw(t, "work") {
+				wsrc := funcs(rapid.IntRange(0, 1).Draw(t, "nfuncs"))
+				if f.work == "_tool.gox" {
+					wsrc += "return -1\n"
+				}
+				c.Files = append(c.Files, SrcFile{workNames[i] + f.work, wsrc})
+			}
+		}
+		c.Files = sorted(c.Files)
+		return c
 	}
 	for _, f := range picked {
 		nproj := rapid.SampledFrom([]int{0, 1, 1, 1, 1, 2}).Draw(t, "nproj")
@@ -817,8 +839,8 @@ func sugarProgram(t *rapid.T) Case {
 func drawCase(t *rapid.T) (Case, string) {
 	var c Case
 	class := ""
-	switch rapid.IntRange(0, 12).Draw(t, "kind") {
-	case 10, 11:
+	switch rapid.IntRange(0, 13).Draw(t, "kind") {
+	case 10, 11, 13:
 		c, class = projectProgram(t, false), "src=project-classes"
 	case 12:
 		c, class = projectProgram(t, true), "src=project-classes-errors"
